@@ -415,7 +415,16 @@ func minimiseAndConfirm(raw, outp, class string) int {
 	cmd := exec.Command(self, "minimise", raw, outp, class)
 	cmd.Stderr = os.Stderr
 	if err := cmd.Run(); err != nil {
-		return 2
+		// could not minimise (e.g. a probabilistic divergence): fall back to the unminimised schedule
+		sch, lerr := loadSchedule(raw)
+		if lerr != nil {
+			return 2
+		}
+		sch.Expect = &Expect{Class: class, Block: -1, Step: -1, Detail: "unminimised schedule"}
+		sch.Trace = nil
+		if os.WriteFile(outp, []byte(mustJSON(sch)), 0o644) != nil {
+			return 2
+		}
 	}
 	cmd = exec.Command(self, "replay", outp)
 	cmd.Stderr = os.Stderr
